@@ -11,7 +11,7 @@ const FOCUS_L = ['identChild', 'callChild', 'twoCalls', 'vmodel', 'frag', 'fragA
 const FOCUS = ALL.filter((it) => it.d || FOCUS_L.includes(it.l));
 const CORE_K = ['stmt', 'fn', 'arrowExpr', 'field', 'defparam', 'loopBare', 'arrowDefparam', 'block'];
 const CORE_L = ['identChild', 'callChild', 'frag'];
-const CORE_D = ['assignSame', 'fnNoJsx', 'arrowNoJsx', 'arrowBlockNoJsx', 'userSlot', 'userIsSlot', 'importFragmentAlias', 'selfAssign', 'selfAssignFn', 'blockNoJsx', 'tagUnbound', 'tagLocal'];
+const CORE_D = ['assignSame', 'fnNoJsx', 'arrowNoJsx', 'arrowBlockNoJsx', 'userSlot', 'userIsSlot', 'importFragmentAlias', 'selfAssign', 'selfAssignFn', 'blockNoJsx', 'tagUnbound', 'tagLocal', 'selfAssignTwice'];
 const CORE = ALL.filter((it) => (it.d ? CORE_D.includes(it.d) : CORE_K.includes(it.k) && CORE_L.includes(it.l)));
 const MINI = ALL.filter((it) => (it.d ? ['assignSame', 'arrowNoJsx', 'userSlot', 'selfAssign', 'fnNoJsx'].includes(it.d) : ['stmt', 'arrowExpr', 'field', 'defparam', 'loopBare'].includes(it.k) && ['identChild', 'callChild', 'frag'].includes(it.l)));
 
